@@ -133,4 +133,7 @@ def run(r):
     r.coverage["distinct_nontrivial"] = len(set((c["prog"], c["x"]) for c in rep if "[]" not in c["x"])) + compared // 3
     r.coverage["rule"] = ("tie: catalogue operand (26: fast-path atoms, generic atoms, composites with equal / unequal kernel depths) x nesting 1-3 x integer or character "
                           "array of rank 1-4, axis lengths 0-3, leading axis forced to 1 / 0 in 30% of the cases; search: operand from 44 monadic / 18 dyadic "
-                          "functions x {direct, named wrapper, `(F∘)`} x modifier family x arrays of every element type, rank 1-3; non-trivial = array with at least one element")
+                          "functions x {direct, named wrapper, `(F∘)`} x modifier family x arrays of every element type, rank 1-3; plus a directed family (fixed corpus and one iteration in six): "
+                          "reduce / scan / table / fold / rows / each of operands with primitive-specialised paths on arguments that carry run-time sortedness marks "
+                          "(sort, reversed sort, select by rise; ties; byte and float storage; rank 1-3, rows ordered while later columns are not monotone); "
+                          "non-trivial = array with at least one element")
